@@ -122,7 +122,13 @@ def from_code_under_test(e):
     """the exception passed through amaranth_soc and was not raised by a harness frame"""
     tb = traceback.extract_tb(e.__traceback__)
     inner = tb[-1].filename if tb else ""
-    return any(f.filename.startswith(REPO + "/amaranth_soc") for f in tb) and not inner.startswith(VERIF)
+    if isinstance(e, AttributeError) and type(getattr(e, "obj", None)).__module__.split(".")[0] in ("amaranth_soc", "amaranth"):
+        return True          # an object the library built lacks a member the harness reads (e.g. one its feature set promises)
+    if inner.startswith(VERIF):
+        return False
+    # raised below a library frame, or by Amaranth itself when the harness touches an object the library
+    # built (e.g. an optional interface member that the feature set promises but the object lacks)
+    return any(f.filename.startswith(REPO + "/amaranth_soc") for f in tb) or "/amaranth/" in inner
 
 
 def _call(args):
